@@ -22,7 +22,7 @@ def _dotted(e):
 
 def _own_nodes(fn):
     """nodes of a function body excluding nested function bodies"""
-    todo = list(fn.body)
+    todo = [x for x in fn.body if not isinstance(x, (ast.FunctionDef, ast.AsyncFunctionDef, ast.ClassDef))]
     while todo:
         n = todo.pop()
         yield n
@@ -92,7 +92,30 @@ def sites(src, fr):
     return out
 
 
+def decorated_scan(src, fr):
+    """every listed method carries @synchronized(<name>) (util.synchronized / synchronized)"""
+    from .extract import deco_name
+    bad = []
+    n = 0
+    for qual, name in fr['methods'].items():
+        n += 1
+        try:
+            fi = src.find(qual)
+        except Exception as e:
+            bad.append({'function': qual, 'line': 0, 'what': 'not found'})
+            continue
+        if fi.synchronized != name:
+            bad.append({'function': qual, 'line': fi.lines[0],
+                        'what': 'expected @synchronized(%r), found %r' % (name, fi.synchronized)})
+        elif fr.get('outermost', True) and deco_name(fi.deco_nodes[0]) not in ('util.synchronized', 'synchronized'):
+            bad.append({'function': qual, 'line': fi.lines[0], 'what': '@synchronized is not the outermost decorator'})
+    return {'name': 'frame-scan:' + fr['name'], 'what': fr['what'], 'checked': n, 'sites_found': n,
+            'ok': not bad, 'violations': bad, 'sites': []}
+
+
 def run(fr, src, spec):
+    if fr['kind'] == 'decorated':
+        return decorated_scan(src, fr)
     found = sites(src, fr)
     allowed = fr.get('allowed', [])
     bad = []
